@@ -10,7 +10,10 @@ import os, subprocess, itertools
 
 ID = 'C08'
 PROFILES = ['debug']
-THEOREMS = []            # filled in below (kept next to the Coq file's content)
+THEOREMS = ['C08_refuted', 'C08_refuted_memo_leak', 'C08_refuted_disjunct_attrs', 'C08_refuted_memo_ignores_pred',
+            'C08_refuted_compound_pred', 'C08_refuted_compound_pred_array', 'C08_refuted_any_entry', 'C08_refuted_any_elem',
+            'C08_refuted_self_reference', 'C08_refuted_examined_alternative', 'C08_alternative_order_matters',
+            'C08_refuted_named_disjunct', 'C08_refuted_stale_index', 'C08_refuted_undefined_required']
 ALLOWED_AXIOMS = []
 CASE_TIMEOUT = 300
 ROOT = os.path.dirname(os.path.dirname(os.path.abspath(__file__)))
@@ -621,6 +624,10 @@ def features(case):
     if any(c[2] is not None and c[1][0] == 'A' and (_resolve(tctx, c[1][1]) or ('r', ('_',), None, ''))[1][0] != '_' for c in reps):
         f.add('compound-pred')
     for c in reps:
+        if c[1][0] == 'A':
+            r = _resolve(tctx, c[1][1])
+            if r is not None and r[1][0] == '_' and (r[2] is not None or r[3] != ''):
+                f.add('any-entry')
         if c[1][0] in 'DS':
             ents = [e[1] for e in c[1][1]] + ([c[1][2][0]] if c[1][0] == 'D' and c[1][2] is not None else [])
             for e in ents:
